@@ -19,6 +19,7 @@ type Env struct {
 	inOld  bool
 	depth  int
 	inQuant bool
+	assumeHeld bool // evaluating the function's own precondition: held(mu) takes effect
 }
 
 var untypedInt = types.Typ[types.UntypedInt]
@@ -287,6 +288,9 @@ func (e *Env) evalSel(ex *SExpr) Val {
 	case *types.Interface:
 		ownerKey = typeKey(t)
 		idx = a.L[1]
+	case *types.Signature:
+		ownerKey = typeKey(t)
+		idx = a.L[1]
 	}
 	if g, ok := e.x.P.specs.Ghosts[ownerKey+"."+name]; ok && idx != "" {
 		gt, err := e.x.P.lookupType(g.Type)
@@ -302,6 +306,14 @@ func (e *Env) evalSel(ex *SExpr) Val {
 
 // applyDynType narrows an interface-typed field whose dynamic type is fixed by the type spec.
 func (e *Env) applyDynType(owner, field string, v Val) Val {
+	if ts, ok := e.x.P.specs.Types[owner]; ok && len(v.L) == 2 {
+		if dt, ok := ts.DynType[field]; ok {
+			if t, err := e.x.P.lookupType(dt); err == nil {
+				nv := Val{Typ: v.Typ, L: []string{fmt.Sprint(e.x.P.typeID(t)), v.L[1]}}
+				return nv
+			}
+		}
+	}
 	return v
 }
 
@@ -648,6 +660,11 @@ func (e *Env) evalCall(ex *SExpr) Val {
 		case "held":
 			// held(x.mu): the lock is held at this point of the path (Go-side fact)
 			lk := e.lockKey(args[0])
+			if e.assumeHeld {
+				e.s.held[lk] = heldLock{Write: true}
+				e.s.lockedOnce[lk] = true
+				return boolVal("true")
+			}
 			_, ok := e.s.held[lk]
 			if ok {
 				return boolVal("true")
@@ -693,6 +710,13 @@ func (e *Env) evalCall(ex *SExpr) Val {
 			default:
 				return Val{Typ: types.Typ[types.Int], L: []string{fmt.Sprint(idx[k])}}
 			}
+		case "lastcallarg":
+			name := e.strArg(args[0])
+			idx := e.matchEvents(name)
+			if len(idx) == 0 || e.s.opaqueEvents[name] {
+				return Val{Typ: types.Typ[types.Int], L: []string{e.x.D.fresh("noevent", "Int")}}
+			}
+			return e.events[idx[len(idx)-1]].Args[e.intArg(args[1])]
 		case "nevents":
 			return Val{Typ: types.Typ[types.Int], L: []string{fmt.Sprint(len(e.events))}}
 		}
